@@ -82,46 +82,31 @@ Proof. vm_compute. reflexivity. Qed.
 Print Assumptions C10_commit_fails.
 
 (* ---- structural facts extracted from the source by T1: order of the steps in the code ---- *)
-From BV Require Import Gen.Tables Proofs.StructureFacts.
+From BV Require Import Gen.Tables.
 Local Open Scope N_scope.
-Theorem C10_repo_order_cli__update :
-  ORDER_CLI__UPDATE = [
-  [118;99;115;46;103;101;116;95;118;99;115;95;97;112;105] (* vcs.get_vcs_api *);
-  [118;99;115;46;97;115;115;101;114;116;95;110;111;116;95;100;105;114;116;121] (* vcs.assert_not_dirty *);
-  [118;50;114;101;119;114;105;116;101;46;114;101;119;114;105;116;101;95;102;105;108;101;115] (* v2rewrite.rewrite_files *);
-  [118;49;114;101;119;114;105;116;101;46;114;101;119;114;105;116;101;95;102;105;108;101;115] (* v1rewrite.rewrite_files *);
-  [118;99;115;46;99;111;109;109;105;116] (* vcs.commit *)
-  ].
-Proof. exact repo_order_cli__update. Qed.
-Print Assumptions C10_repo_order_cli__update.
 
+(* ---- call orders extracted from the source by T1: the steps this property rests on ---- *)
+From Coq Require Import Strings.String.
+From BV Require Import Lib.StrLit Gen.Tables Proofs.OrderC10.
+Local Open Scope string_scope.
+
+(* in cli.update the options are merged first and the dry return comes before the update proper *)
+Theorem C10_repo_order_update :
+  restrict (lits ["_parse_vcs_options"; "_update_cfg_from_vcs"; "<if dry: return>"; "_try_update"]) ORDER_CLI_UPDATE
+  = lits ["_parse_vcs_options"; "_update_cfg_from_vcs"; "<if dry: return>"; "_try_update"].
+Proof. exact c10_order_update. Qed.
+Print Assumptions C10_repo_order_update.
+
+(* in cli._update: dirty check, rewrite, then the VCS steps *)
+Theorem C10_repo_order__update :
+  restrict (lits ["vcs.get_vcs_api"; "vcs.assert_not_dirty"; "v2rewrite.rewrite_files"; "v1rewrite.rewrite_files"; "vcs.commit"]) ORDER_CLI__UPDATE
+  = lits ["vcs.get_vcs_api"; "vcs.assert_not_dirty"; "v2rewrite.rewrite_files"; "v1rewrite.rewrite_files"; "vcs.commit"].
+Proof. exact c10_order__update. Qed.
+Print Assumptions C10_repo_order__update.
+
+(* in vcs.commit: pre hook, add, commit, post hook, tag, push of the tag, push *)
 Theorem C10_repo_order_vcs_commit :
-  ORDER_VCS_COMMIT = [
-  [104;111;111;107;115;46;114;117;110] (* hooks.run *);
-  [118;99;115;95;97;112;105;46;97;100;100] (* vcs_api.add *);
-  [118;99;115;95;97;112;105;46;99;111;109;109;105;116] (* vcs_api.commit *);
-  [104;111;111;107;115;46;114;117;110] (* hooks.run *);
-  [118;99;115;95;97;112;105;46;116;97;103] (* vcs_api.tag *);
-  [118;99;115;95;97;112;105;46;112;117;115;104;95;116;97;103] (* vcs_api.push_tag *);
-  [118;99;115;95;97;112;105;46;112;117;115;104] (* vcs_api.push *)
-  ].
-Proof. exact repo_order_vcs_commit. Qed.
+  restrict (lits ["hooks.run"; "vcs_api.add"; "vcs_api.commit"; "vcs_api.tag"; "vcs_api.push_tag"; "vcs_api.push"]) ORDER_VCS_COMMIT
+  = lits ["hooks.run"; "vcs_api.add"; "vcs_api.commit"; "hooks.run"; "vcs_api.tag"; "vcs_api.push_tag"; "vcs_api.push"].
+Proof. exact c10_order_vcs_commit. Qed.
 Print Assumptions C10_repo_order_vcs_commit.
-
-Theorem C10_repo_order_cli_update :
-  ORDER_CLI_UPDATE = [
-  [95;118;97;108;105;100;97;116;101;95;114;101;108;101;97;115;101;95;116;97;103] (* _validate_release_tag *);
-  [95;118;97;108;105;100;97;116;101;95;100;97;116;101] (* _validate_date *);
-  [99;111;110;102;105;103;46;105;110;105;116] (* config.init *);
-  [95;112;97;114;115;101;95;118;99;115;95;111;112;116;105;111;110;115] (* _parse_vcs_options *);
-  [95;117;112;100;97;116;101;95;99;102;103;95;102;114;111;109;95;118;99;115] (* _update_cfg_from_vcs *);
-  [105;110;99;114;95;100;105;115;112;97;116;99;104] (* incr_dispatch *);
-  [95;105;115;95;118;97;108;105;100;95;118;101;114;115;105;111;110] (* _is_valid_version *);
-  [95;112;114;105;110;116;95;100;105;102;102] (* _print_diff *);
-  [99;111;109;109;105;116;95;109;115;103;95;116;101;109;112;108;97;116;101;46;102;111;114;109;97;116] (* commit_msg_template.format *);
-  [116;97;103;95;109;115;103;95;116;101;109;112;108;97;116;101;46;102;111;114;109;97;116] (* tag_msg_template.format *);
-  [60;105;102;32;100;114;121;58;32;114;101;116;117;114;110;62] (* <if dry: return> *);
-  [95;116;114;121;95;117;112;100;97;116;101] (* _try_update *)
-  ].
-Proof. exact repo_order_cli_update. Qed.
-Print Assumptions C10_repo_order_cli_update.
